@@ -2366,25 +2366,25 @@ func (m *repoManager) renameDataByName(uuid dvid.UUID, oldname, newname dvid.Ins
 	if err != nil {
 		return err
 	}
-	r.RLock()
+	// The name checks and the renaming are one critical section: concurrent renames or instance
+	// creations must not both pass the checks.
+	r.Lock()
 	if r.passcode != "" && r.passcode != passcode {
-		r.RUnlock()
+		r.Unlock()
 		return fmt.Errorf("incorrect passcode for repo %s", r.uuid)
 	}
 	data, found := r.data[oldname]
 	if !found || data.IsDeleted() {
-		r.RUnlock()
+		r.Unlock()
 		return ErrInvalidDataName
 	}
 	_, found = r.data[newname]
 	if found {
-		r.RUnlock()
+		r.Unlock()
 		return ErrExistingDataName
 	}
-	r.RUnlock()
 
 	// Rename this data instance in the repository and persist.
-	r.Lock()
 	tm := time.Now()
 	r.updated = tm
 	msg := fmt.Sprintf("Renamed data instance %q to %q", oldname, newname)
